@@ -178,6 +178,7 @@ def main(argv):
     ap.add_argument('property', nargs='?')
     ap.add_argument('--tier', default=os.environ.get('VERIF_TIER', 'quick'))
     ap.add_argument('--replay')
+    ap.add_argument('-v', '--verbose', action='store_true')
     ap.add_argument('--repo', default='/repo')
     a = ap.parse_args(argv)
     if a.replay:
@@ -195,6 +196,9 @@ def main(argv):
         ap.error('property id required')
     try:
         ctx, violations, _ = run_property(a.property, a.tier, repo=a.repo)
+        if a.verbose:
+            for o in ctx.obs:
+                print('  %s %-40s %-9s %s  -- %s' % ('ok ' if o['ok'] else 'BAD', o['id'], o['rule'], o['where'] or '', o['detail'][:160]))
     except extract.ExtractError as e:
         print('ERROR: fact extraction failed (tree does not build?):\n%s' % e)
         return 2
